@@ -140,6 +140,11 @@ ARM64 = {
                     asm="adrp x0, {t}"),
     "mov_sym": dict(b=_w(0x10000000), kind="ord", sym=(0, 4),
                     asm="adr x0, {t}"),
+    # pc-relative literal loads
+    "ldr_lit": dict(b=_w(0x58000000), kind="ord", sym=(0, 2),
+                    asm="ldr x0, {t}"),
+    "ldrsw_lit": dict(b=_w(0x98000001), kind="ord", sym=(0, 2),
+                      asm="ldrsw x1, {t}"),
     # relocation modifier on the operand (the expression carries LO12)
     "addlo_sym": dict(b=_w(0x91000000), kind="ord", sym=(0, 1),
                       asm="add x0, x0, :lo12:{t}", attrs=("LO12",)),
